@@ -327,7 +327,8 @@ func (l *Lexer) consumeNumber(noPanic bool) {
 	i := 0
 	base := 10
 
-	if l.peekIs(i, '0') && (l.peekIs(i+1, 'x') || l.peekIs(i+1, 'X')) {
+	// A hexadecimal literal needs at least one digit after the prefix: "0x" alone is the integer 0 glued to "x".
+	if l.peekIs(i, '0') && (l.peekIs(i+1, 'x') || l.peekIs(i+1, 'X')) && l.peekOk(i+2) && char.IsHexDigit(l.peek(i+2)) {
 		i += 2
 		base = 16
 	}
